@@ -25,6 +25,12 @@ R.contract("PeerConnection.work_write_queue", params={"self": "PeerConnection", 
            raises=[], ghost_modifies=["self._write_msg_queue.g_taken", "*Message.g_enc", "self.g_removed", "self.write_lock.g_held"],
            modifies=["self._write_buffer", "*MessageHeader.length", "*Avp._avps", "*list:Any"], props=["C15", "C14", "C07"],
            note="writer thread: raises nothing; each iteration appends exactly the encoding of the dequeued message, or nothing")
+R.contract("PeerConnection.demand_attention#may-fail", trusted=True, params={"self": "PeerConnection"},
+           raises=[Raise("OSError", "True", "may")], ghost_modifies=["self.g_attn"],
+           note="the wake-up as the writer thread must be prepared to see it: os.write on the interrupt pipe may fail "
+                "(EINTR, EBADF once the node has gone); the writer's contract has to hold then as well")
+R.contracts["PeerConnection.work_write_queue"].call_overrides = {
+    "PeerConnection.demand_attention": R.contracts["PeerConnection.demand_attention#may-fail"]}
 R.loop("PeerConnection.work_write_queue", 0,
        invariants=[("write-lock-released-between-messages", "not self.write_lock.g_held")],
        step_back=[("a-stopped-writer-leaves-at-its-next-iteration", "not prev(_thread.stopped)")],
@@ -36,7 +42,9 @@ R.loop("PeerConnection.work_write_queue", 0,
              ("dequeues-at-most-one", "len(self._write_msg_queue.g_taken) <= prev(len(self._write_msg_queue.g_taken)) + 1 and "
                                       "items(self._write_msg_queue.g_taken)[0:prev(len(self._write_msg_queue.g_taken))] == "
                                       "prev(items(self._write_msg_queue.g_taken))"),
-             ("removed-log-only-grows", "is_prefix(prev(self.g_removed), self.g_removed)")],
+             ("removed-log-only-grows", "is_prefix(prev(self.g_removed), self.g_removed)"),
+             ("the-writer-never-queues-a-message-itself",
+              "items(self._write_msg_queue.g_put) == prev(items(self._write_msg_queue.g_put))")],
        local_kinds={"new_msg": "Opt[Message]"},
        modifies=["self._write_buffer", "self.g_removed", "self._write_msg_queue.g_taken", "*Message.g_enc", "self.write_lock.g_held",
                  "*MessageHeader.length", "*Avp._avps", "*list:Any"])
